@@ -106,11 +106,13 @@ def module_state(m):
     return (D.try_compute.depth, len(D.Awaiting.awaiting_stack), len(R.handle_reports.handlers_stack))
 
 
-POOL_VALID = ["mov #1, r0\nbr .\n", "a = 5\n.word a, b\nb = a + 2\n", ".ascii /hi/\n.even\nx: .word x\n", ".link 2000\nstart: jmp start\n.blkb 10\n",
+POOL_VALID = [".once\nmov #2, r0\n", ".once\n.end\n", "mov #1, r0\nbr .\n", "a = 5\n.word a, b\nb = a + 2\n", ".ascii /hi/\n.even\nx: .word x\n", ".link 2000\nstart: jmp start\n.blkb 10\n",
               ".repeat 3 { inc r0 }\n", "l1: sob r1, l1\n.word 'a, \"bc\n"]
 POOL_INVALID = ["mov r0\n", ".word undefined_sym\n", ".byte 400\n", "br .+1000\n", "frob\n", ".ascii \"abc\n", "x = \n", ".word 5/0\n", "a: a: nop\n",
                 ".link 1000\n.link 2000\n", "rts #5\n", ".word (1+\n", ".blkb -1\n", ".error boom\n", "a = b\nb = c + 1\n.word a\n"]
-PROBES = ["start: mov #start, r0\n.word late, 'x\nlate = . - start\n.ascii /probe/\n", ".word nosuch\n.byte 300\n", "l: br l\n.even\n.blkw 3\n"]
+PROBES = ["start: mov #start, r0\n.word late, 'x\nlate = . - start\n.ascii /probe/\n", ".word nosuch\n.byte 300\n", "l: br l\n.even\n.blkw 3\n",
+          # per-assembly counters (how often a file was compiled, scope and file numbering) must start afresh
+          ".once\nx: .word x, 5\n1$: br 1$\n", "a: .word 1$\n1$: .word a\nb: .word 1$\n1$: nop\n"]
 
 
 def run_one(src):
@@ -119,7 +121,12 @@ def run_one(src):
 
 
 def run(ctx):
-    m = impl.load()
+    # the reference results of the probes: each in freshly imported modules (nothing assembled before)
+    fresh = {}
+    for p in PROBES:
+        impl.load(fresh=True)
+        fresh[p] = run_one(p)
+    m = impl.load(fresh=True)
     rng = ctx.rng("c18")
     ctx.rule = ("(a) random computations over try_compute / Awaiting / handle_reports / emit_report / raise / catch (depth <= 6) run with "
                 "the real context managers and compared with the Lean State model (exception in flight, final module state, delivered "
@@ -161,7 +168,6 @@ def run(ctx):
             del D.Awaiting.awaiting_stack[:]
             del R.handle_reports.handlers_stack[:]
     # ------------------------------------------------------------------ (b)
-    fresh = {p: run_one(p) for p in PROBES}
     n_hist = 400 if ctx.thorough else 40
     for _ in range(n_hist):
         hist = [rng.choice(POOL_VALID + POOL_INVALID) for _ in range(rng.randint(1, 50))]
